@@ -40,13 +40,29 @@ def render_eq(eq):
     return "%s = %d" % (lhs, eq["const"])
 
 
+def _render_connector(out, name, vs, ind):
+    out.append("%sconnector %s" % (ind, name))
+    for vn, prefixes in vs:
+        out.append("%s  %sReal %s;" % (ind, "".join(p + " " for p in prefixes), vn))
+    out.append("%send %s;" % (ind, name))
+
+
 def render(case):
+    """Connector classes named `Pkg.Name` are written inside `package Pkg` (several packages may hold
+    connector classes with the same simple name); models refer to them by the qualified name."""
     out = []
+    pkgs = {}
     for name, vs in case["ctypes"].items():
-        out.append("connector %s" % name)
-        for vn, prefixes in vs:
-            out.append("  %sReal %s;" % ("".join(p + " " for p in prefixes), vn))
-        out.append("end %s;" % name)
+        if SEP in name:
+            pkg, simple = name.split(SEP, 1)
+            pkgs.setdefault(pkg, []).append((simple, vs))
+        else:
+            _render_connector(out, name, vs, "")
+    for pkg, items in pkgs.items():
+        out.append("package %s" % pkg)
+        for simple, vs in items:
+            _render_connector(out, simple, vs, "  ")
+        out.append("end %s;" % pkg)
     for m in case["models"]:
         out.append("model %s" % m["name"])
         for n, t, _k in m["decl"]:
@@ -129,24 +145,46 @@ def conn_type(case, models, m, path):
 FAMILIES = ["chain", "star", "cycle", "dup", "merge", "random", "bridge"]
 
 
+# Names are drawn from pools in which some names are string prefixes of others (p/p2/pin/pin1, g/gnd,
+# a/ab, c/c1/c10, a top-level connector `c` next to a component `c1`): bookkeeping by flat name must
+# not confuse `t.p` with `t.p2`, nor `g` with `gnd`.
+CONN_NAMES = ["a", "ab", "b", "p", "p2", "pin", "pin1", "n", "pos", "p_in"]
+TOP_NAMES = ["g", "gnd", "o", "o1", "out", "p", "p2", "pin", "c", "c1", "c10", "r", "r2", "t", "tp", "a", "ab", "n", "n1", "m"]
+STEMS = [("v", "i"), ("T", "q"), ("h", "w")]
+
+
 def gen_ctypes(rng):
+    """One or two connector classes.  With two: sometimes in two packages under the SAME simple name
+    (El.Port / Th.Port), sometimes in packages under different names, sometimes at the top level;
+    variable names either shared between the classes or taken from different stems."""
+    n = rng.choice([1, 1, 2, 2])
+    r = rng.random()
+    if n == 2 and r < 0.45:
+        names = ["El.Port", "Th.Port"]
+    elif r < 0.6:
+        names = ["El.Pin", "Th.Port"][:n]
+    else:
+        names = ["P0", "P1"][:n]
+    distinct_stems = rng.random() < 0.6
     cts = {}
-    for ci in range(rng.choice([1, 1, 2])):
+    for ci, name in enumerate(names):
+        sp, sf = STEMS[ci] if distinct_stems else STEMS[0]
         npot, nflow = rng.randint(1, 3), rng.randint(1, 2)
-        vs = [["v%d" % i, []] for i in range(npot)] + [["i%d" % i, ["flow"]] for i in range(nflow)]
+        vs = [["%s%d" % (sp, i), []] for i in range(npot)] + [["%s%d" % (sf, i), ["flow"]] for i in range(nflow)]
         r = rng.random()
         if r < 0.15:
             vs[0][1] = [rng.choice(["input", "output"])]
         if rng.random() < 0.15:
             vs.append(["k0", [rng.choice(["parameter", "constant"])]])
         rng.shuffle(vs)
-        cts["P%d" % ci] = vs
+        cts[name] = vs
     return cts
 
 
 def gen_leaf(rng, cts, name):
     n = rng.randint(1, 3)
-    decl = [["abcd"[i], rng.choice(sorted(cts)), "conn"] for i in range(n)]
+    names = rng.sample(CONN_NAMES, n) if rng.random() < 0.7 else rng.choice([["p", "p2", "pin"], ["a", "ab", "b"], ["p", "pos", "p_in"]])[:n]
+    decl = [[names[i], rng.choice(sorted(cts)), "conn"] for i in range(n)]
     allv = [c[0] + SEP + v[0] for c in decl for v in cts[c[1]] if var_kind(v[1]) != "skip"]
     body = []
     for _ in range(rng.choice([0, 1, 1, 2])):
@@ -215,8 +253,9 @@ def nodes_of(case_models, m):
 
 
 def gen_composite(rng, cts, lower, name, n_out, n_comp, fams=None):
-    decl = [["o%d" % i, rng.choice(sorted(cts)), "conn"] for i in range(n_out)]
-    decl += [["c%d" % i, rng.choice(lower)["name"], "comp"] for i in range(n_comp)]
+    names = rng.sample(TOP_NAMES, n_out + n_comp)
+    decl = [[names[i], rng.choice(sorted(cts)), "conn"] for i in range(n_out)]
+    decl += [[names[n_out + i], rng.choice(lower)["name"], "comp"] for i in range(n_comp)]
     rng.shuffle(decl)
     m = {"name": name, "decl": decl, "body": []}
     by_type = nodes_of(lower, m)
@@ -293,7 +332,7 @@ def _gen_case(rng, stream):
     top, u = gen_composite(rng, cts, lower, "T", rng.choice([0, 1, 2]), rng.randint(1, 3))
     # make sure at least one mid-level model is instantiated
     if not any(d[2] == "comp" and d[1].startswith("C") for d in top["decl"]):
-        top["decl"].append(["m0", mids[0]["name"], "comp"])
+        top["decl"].append(["m0", mids[0]["name"], "comp"])   # "m0" is not in TOP_NAMES
     used += u
     case = {"stream": stream, "ctypes": cts, "models": lower + [top], "top": "T", "families": used}
     if stream == "hier":
